@@ -121,27 +121,78 @@ pub async fn run_conn_h2(
             )
         }));
     }
+    // An HTTP/2 client that goes away: `Until{ms}` (absolute) followed by
+    // Close or Reset drops every stream and the connection at that instant.
+    let mut leave: Option<(u64, bool)> = None;
+    let mut at = None;
+    for st in &plan.steps {
+        match st {
+            crate::plan::Step::Until { ms } => at = Some(*ms),
+            crate::plan::Step::Close => leave = at.map(|t| (t, false)),
+            crate::plan::Step::Reset => leave = at.map(|t| (t, true)),
+            _ => {}
+        }
+    }
     let mut by_req: Vec<Option<RespObs>> = vec![None; plan.reqs.len()];
+    let start = world.0.lock().unwrap().start;
+    let deadline = leave.map(|(t, _)| start + ms(t));
+    let mut left = false;
     for t in tasks {
-        match t.await {
-            Ok((i, Ok((q, r)))) => {
+        let r = match deadline {
+            Some(d) if !left => {
+                let mut t = t;
+                tokio::select! {
+                    r = &mut t => Some(r),
+                    _ = tokio::time::sleep_until(d) => {
+                        left = true;
+                        t.abort();
+                        let _ = t.await;
+                        None
+                    }
+                }
+            }
+            Some(_) => {
+                // already gone: whatever has not completed is abandoned
+                t.abort();
+                match t.await {
+                    Ok(x) => Some(Ok(x)),
+                    Err(_) => None,
+                }
+            }
+            None => Some(t.await),
+        };
+        match r {
+            Some(Ok((i, Ok((q, r))))) => {
                 obs.sent_seq[i] = Some(q);
                 by_req[i] = Some(r);
             }
-            Ok((i, Err(e))) => obs.h2_err[i] = Some(e),
-            Err(e) => {
+            Some(Ok((i, Err(e)))) => obs.h2_err[i] = Some(e),
+            Some(Err(e)) => {
                 obs.h2_err.iter_mut().for_each(|x| {
                     if x.is_none() {
                         *x = Some(format!("task: {e}"));
                     }
                 });
             }
+            None => {}
         }
     }
     obs.by_req = by_req;
     drop(sender);
     conn_task.abort();
     let _ = conn_task.await;
-    end.close_orderly();
+    if let (true, Some((_, reset))) = (left, leave) {
+        let q = world.n_events();
+        if reset {
+            end.reset();
+            obs.left = crate::client::Left::Reset;
+        } else {
+            end.close();
+            obs.left = crate::client::Left::Close;
+        }
+        obs.left_seq = Some(q);
+    } else {
+        end.close_orderly();
+    }
     obs
 }
